@@ -17,7 +17,7 @@ def run(p, out):
     return p, r.returncode, [k for k,_ in keys][:6], (r.stderr[-300:] if r.returncode==2 else '')
 bad=0
 for d in sys.argv[1:]:
-    for f in sorted(glob.glob(d+'/*.diff')):
+    for f in sorted(glob.glob(os.path.abspath(d)+'/*.diff')):
         name=os.path.basename(d.rstrip('/'))+'/'+os.path.basename(f)
         a=subprocess.run(['git','-C','/repo','apply',f],capture_output=True,text=True)
         if a.returncode!=0:
